@@ -23,16 +23,20 @@ EXTENDS Naturals, Sequences, SequencesExt, FiniteSets, TLC, Json, IOUtils
 \* the graph: statements 2 and 3 use the dyndep file "dd"; statement 4 is unrelated
 Users == {"out", "o3"}
 OtherOutputs == {"o4", "out", "o3", "dd"}
-Names == {"out", "o3", "o4", "x1", "s1", "s2", "zz"}
+Names == {"out", "o3", "o4", "x1", "s1", "s2", "zz"}     \* names used for substitutions
+BadName == "b$^d"      \* not a path: a bad $-escape
 
 Base == <<"ninja_dyndep_version", "=", "1", "NL",
           "build", "out", "|", "x1", ":", "dyndep", "|", "s1", "NL", "restat", "=", "1", "NL",
-          "build", "o3", ":", "dyndep", "NL">>
+          "build", "o3", ":", "dyndep", "|", "s2", "NL">>
 
 \* ---- parser over tokens: returns [ok, entries] -------------------------------------------------
-IsName(t) == t \in Names
+\* a path is any token that is not structural: "build", "dyndep", "restat", "=", "1" are legitimate file names
+IsName(t) == t \notin {"NL", "|", ":", BadName}
 RECURSIVE NamesFrom(_, _)
 NamesFrom(q, i) == IF i <= Len(q) /\ IsName(q[i]) THEN <<q[i]>> \o NamesFrom(q, i + 1) ELSE <<>>
+RECURSIVE ToNL(_, _)
+ToNL(q, i) == IF i > Len(q) \/ q[i] = "NL" THEN <<>> ELSE <<q[i]>> \o ToNL(q, i + 1)
 
 \* one build statement starting at position i (q[i] = "build"); returns [ok, next, e]
 ParseBuild(q, i) ==
@@ -42,17 +46,20 @@ ParseBuild(q, i) ==
            hasO == j0 <= Len(q) /\ q[j0] = "|"
            io == IF hasO THEN NamesFrom(q, j0 + 1) ELSE <<>>
            j1 == IF hasO THEN j0 + 1 + Len(io) ELSE j0
-           okHead == j1 + 1 <= Len(q) /\ q[j1] = ":" /\ q[j1 + 1] = "dyndep" /\ (hasO => Len(io) > 0)
+           okHead == j1 + 1 <= Len(q) /\ q[j1] = ":" /\ q[j1 + 1] = "dyndep"
            j2 == j1 + 2
            hasI == okHead /\ j2 <= Len(q) /\ q[j2] = "|"
            ii == IF hasI THEN NamesFrom(q, j2 + 1) ELSE <<>>
            j3 == IF hasI THEN j2 + 1 + Len(ii) ELSE j2
            okNL == okHead /\ j3 <= Len(q) /\ q[j3] = "NL"
            j4 == j3 + 1
-           hasR == okNL /\ j4 + 3 <= Len(q) /\ q[j4] = "restat" /\ q[j4 + 1] = "=" /\ q[j4 + 2] = "1" /\ q[j4 + 3] = "NL"
-           badR == okNL /\ j4 <= Len(q) /\ q[j4] = "restat" /\ ~hasR
-       IN IF ~okNL \/ badR THEN [ok |-> FALSE, next |-> i, e |-> <<>>]
-          ELSE [ok |-> TRUE, next |-> IF hasR THEN j4 + 4 ELSE j4, e |-> [out |-> out, io |-> io, ii |-> ii, restat |-> hasR]]
+           \* an indented binding follows: it must be "restat = <value>" up to the end of the line; a non-empty value means true
+           isR == okNL /\ j4 <= Len(q) /\ q[j4] = "restat"
+           val == IF isR /\ j4 + 1 <= Len(q) /\ q[j4 + 1] = "=" THEN ToNL(q, j4 + 2) ELSE <<>>
+           j5 == j4 + 2 + Len(val)
+           okR == isR /\ j4 + 1 <= Len(q) /\ q[j4 + 1] = "=" /\ j5 <= Len(q) /\ q[j5] = "NL" /\ \A k \in DOMAIN val : val[k] # BadName
+       IN IF ~okNL \/ (isR /\ ~okR) THEN [ok |-> FALSE, next |-> i, e |-> <<>>]
+          ELSE [ok |-> TRUE, next |-> IF isR THEN j5 + 1 ELSE j4, e |-> [out |-> out, io |-> io, ii |-> ii, restat |-> isR /\ Len(val) > 0]]
 
 RECURSIVE ParseBuilds(_, _, _)
 ParseBuilds(q, i, acc) ==
@@ -72,21 +79,29 @@ Valid(q) ==
   /\ \A u \in Users : Cardinality({k \in DOMAIN es : es[k].out = u}) = 1         \* none omitted, none twice
   /\ \A k \in DOMAIN es : \A x \in DOMAIN es[k].io : es[k].io[x] \notin OtherOutputs    \* no output another statement produces
   /\ \A k1, k2 \in DOMAIN es : \A x1 \in DOMAIN es[k1].io : \A x2 \in DOMAIN es[k2].io : (k1 # k2 \/ x1 # x2) => es[k1].io[x1] # es[k2].io[x2]
-  \* a discovered input that is an output of a statement depending on this one would close a cycle (left to C17)
-  /\ \A k \in DOMAIN es : \A x \in DOMAIN es[k].ii : es[k].ii[x] \notin {"out", "o3"}
+  \* (a discovered input that closes a cycle is a matter of the graph, not of the file: C17 and the engine monitors)
 
 \* ---- variants ------------------------------------------------------------------------------------
 Del(q, k) == SubSeq(q, 1, k - 1) \o SubSeq(q, k + 1, Len(q))
 Dup(q, k) == SubSeq(q, 1, k) \o SubSeq(q, k, Len(q))
 Trunc(q, k) == SubSeq(q, 1, k)
 Subst(q, k, t) == [i \in DOMAIN q |-> IF i = k THEN t ELSE q[i]]
-Variants ==
+NamePos == {6, 8, 12, 19, 23}
+AllVariants ==
   {Base}
-  \cup {Del(Base, k) : k \in DOMAIN Base} \cup {Dup(Base, k) : k \in DOMAIN Base} \cup {Trunc(Base, k) : k \in 0..Len(Base)}
-  \cup {Subst(Base, k, t) : k \in {i \in DOMAIN Base : IsName(Base[i])}, t \in Names}
+  \cup {Del(Base, k) : k \in DOMAIN Base} \cup {Dup(Base, k) : k \in DOMAIN Base \ {3}} \cup {Trunc(Base, k) : k \in 0..Len(Base)}   \* ("version = 1 1" is left unspecified)
+  \cup ({Subst(Base, k, t) : k \in NamePos, t \in Names} \ {Subst(Base, 8, t) : t \in {"s1", "s2"}})   \* (a source is not claimed as output)
   \cup {Subst(Base, 3, v) : v \in {"1.0", "0", "1.1", "2"}}
-  \cup {SubSeq(Base, 1, 4) \o SubSeq(Base, 18, 22) \o SubSeq(Base, 5, 17)}          \* statements in the other order
-  \cup {SubSeq(Base, 1, 17) \o SubSeq(Base, 5, 17) \o SubSeq(Base, 18, 22)}         \* a whole statement twice
+  \cup {Subst(Base, k, BadName) : k \in NamePos}
+  \cup {SubSeq(Base, 1, 4) \o SubSeq(Base, 18, 24) \o SubSeq(Base, 5, 17)}          \* statements in the other order
+  \cup {SubSeq(Base, 1, 17) \o SubSeq(Base, 5, 17) \o SubSeq(Base, 18, 24)}         \* a whole statement twice
+
+\* Variants whose file is valid but names, as a discovered input, a file that does not exist and that no statement
+\* produces are left out: ninja tolerates those like vanished depfile headers (build.cc Plan::AddSubTarget,
+\* generated_by_dep_loader), while the same input written into the manifest is an error; the property quantifies over
+\* contents that are valid for the graph.
+KnownFiles == {"s1", "s2", "o4", "out", "o3", "x1", "dd"}
+Variants == {q \in AllVariants : Valid(q) => \A k \in DOMAIN Parse(q).entries : \A x \in DOMAIN Parse(q).entries[k].ii : Parse(q).entries[k].ii[x] \in KnownFiles}
 
 \* ---- rendering -------------------------------------------------------------------------------------
 RECURSIVE Render(_, _, _)
@@ -100,13 +115,18 @@ Text(q) == Render(q, 1, TRUE)
 St0 == [id |-> 0, outs |-> <<>>, iouts |-> <<>>, ex |-> <<>>, im |-> <<>>, oo |-> <<>>, val |-> <<>>, hdrs |-> <<>>, phony |-> FALSE, restat |-> FALSE,
         gen |-> FALSE, rsp |-> FALSE, deps |-> "", pool |-> "", dd |-> "", ddi |-> <<>>, ddo |-> <<>>, ddr |-> FALSE, mkdd |-> "", badrspdir |-> FALSE]
 \* produced = TRUE: the dyndep file is written during the build by statement 1; FALSE: it is a source file
+EntryOf(q, o) == LET es == Parse(q).entries IN es[CHOOSE k \in DOMAIN es : es[k].out = o]
 Scenario(q, produced) ==
+  LET ok == Valid(q)
+      e2 == IF ok THEN EntryOf(q, "out") ELSE EntryOf(Base, "out")
+      e3 == IF ok THEN EntryOf(q, "o3") ELSE EntryOf(Base, "o3")
+  IN
   [srcs |-> IF produced THEN <<"s1", "s2">> ELSE <<"s1", "s2", "dd">>, pools |-> <<>>,
    stmts |-> (IF produced THEN <<[St0 EXCEPT !.id = 1, !.outs = <<"dd">>, !.ex = <<"s1">>, !.mkdd = "dd"]>> ELSE <<[St0 EXCEPT !.id = 1, !.outs = <<"o1">>, !.ex = <<"s1">>]>>)
-             \o <<[St0 EXCEPT !.id = 2, !.outs = <<"out">>, !.ex = <<"s2">>, !.oo = <<"dd">>, !.dd = "dd", !.ddi = <<"s1">>, !.ddo = <<"x1">>, !.ddr = TRUE],
-                  [St0 EXCEPT !.id = 3, !.outs = <<"o3">>, !.ex = <<"s1">>, !.oo = <<"dd">>, !.dd = "dd"],
+             \o <<[St0 EXCEPT !.id = 2, !.outs = <<"out">>, !.ex = <<"s2">>, !.oo = <<"dd">>, !.dd = "dd", !.ddi = e2.ii, !.ddo = e2.io, !.ddr = e2.restat],
+                  [St0 EXCEPT !.id = 3, !.outs = <<"o3">>, !.ex = <<"s1">>, !.oo = <<"dd">>, !.dd = "dd", !.ddi = e3.ii, !.ddo = e3.io, !.ddr = e3.restat],
                   [St0 EXCEPT !.id = 4, !.outs = <<"o4">>, !.ex = <<"s2">>]>>,
-   ddtext |-> [dd |-> Text(q)], ddvalid |-> Valid(q), ddsame |-> q = Base,
+   ddtext |-> [dd |-> Text(q)], ddbad |-> IF ok THEN <<>> ELSE <<"dd">>,
    hist |-> <<[op |-> "build", targets |-> <<"out", "o3", "o4">>, j |-> 2, k |-> 1, fail |-> <<>>],
               [op |-> "build", targets |-> <<"out", "o3", "o4">>, j |-> 2, k |-> 1, fail |-> <<>>]>>]
 
@@ -117,7 +137,7 @@ Spec == Init /\ [][Next]_v
 StopInit == v = <<>>
 \* sanity of the reference itself: the base file is valid, every truncation that ends inside a statement is invalid
 BaseValid == Valid(Base)
-TruncInvalid == \A k \in 0..(Len(Base) - 1) : k \notin {4, 17} => ~Valid(Trunc(Base, k))
+TruncInvalid == \A k \in 0..(Len(Base) - 1) : ~Valid(Trunc(Base, k))
 ASSUME BaseValid /\ TruncInvalid
 ASSUME "OUT" \notin DOMAIN IOEnv \/ ndJsonSerialize(IOEnv.OUT, SetToSeq({Scenario(q, pr) : q \in Variants, pr \in BOOLEAN}))
 =============================================================================
